@@ -541,3 +541,304 @@ theorem cs3_swap_tail (C : Cipher) (hC : C.Valid) (ivp cn ck : Bytes) (hcn : cn.
     List.drop_of_length_le (Nat.le_of_eq hdl), List.append_nil, List.take_of_length_le (by simp [hdl, hck])]
 
 end Thm.C05aux
+
+namespace Thm.C05aux
+open Impl Impl.Cts Glue Spec
+
+/-! ### decryption: shape lemmas (what each decrypt closure does to a buffer of a given layout) -/
+
+theorem cbcDec_eq (C : Cipher) (w : Nat) (iv : Bytes) (blocks : List Bytes) :
+    Cts.cbcDec C w iv blocks = Spec.cbcDec C iv blocks := by
+  have hpar : ∀ s ch, Cts.cbcDecPar C s ch = foldBlocks (Cts.cbcDecBlock C) s ch := fun s ch =>
+    C02.cbc_decPar_eq_fold C ch s
+  unfold Cts.cbcDec
+  rw [blocksCtx_eq_fold w _ _ (fun s ch _ => hpar s ch)]
+  exact C02.cbc_dec_fold C blocks iv
+
+/-- a buffer made of `X` (whole blocks) followed by `Y` with `bs ≤ |Y| < 2·bs`: its chunks and tail. -/
+theorem layout_chunks (bs : Nat) (hbs : 0 < bs) (X : List Bytes) (hX : ∀ b ∈ X, b.length = bs) (Y : Bytes)
+    (hY1 : bs ≤ Y.length) (hY2 : Y.length < 2 * bs) :
+    chunks bs (X.flatten ++ Y) = X ++ [Y.take bs] ∧ chunksTail bs (X.flatten ++ Y) = Y.drop bs := by
+  have hall : ∀ b ∈ X ++ [Y.take bs], b.length = bs := by
+    intro b hb
+    simp only [List.mem_append, List.mem_singleton] at hb
+    rcases hb with hb | rfl
+    · exact hX b hb
+    · simp; omega
+  have h := chunks_of_blocks bs hbs (X ++ [Y.take bs]) (Y.drop bs) hall (by simp; omega)
+  simp only [List.flatten_append, List.flatten_cons, List.flatten_nil, List.append_nil, List.append_assoc,
+    List.take_append_drop] at h
+  exact h
+
+theorem layout_take_drop (bs : Nat) (X : List Bytes) (hX : ∀ b ∈ X, b.length = bs) (Y : Bytes) :
+    (X.flatten ++ Y).take (X.length * bs) = X.flatten ∧ (X.flatten ++ Y).drop (X.length * bs) = Y := by
+  have hl := flatten_length_of_allLen bs X hX
+  exact ⟨List.take_left' hl, List.drop_left' hl⟩
+
+/-- CS1 decrypt on `X ‖ C*_k ‖ C_n` (partial final block of `d` bytes). -/
+theorem cs1_dec_shape (C : Cipher) (hC : C.Valid) (w : Nat) (iv : Bytes) (X : List Bytes) (hX : ∀ b ∈ X, b.length = C.bs)
+    (ck tail : Bytes) (hck : ck.length = C.bs) (ht0 : 0 < tail.length) (ht : tail.length < C.bs) :
+    cbcCs1Dec C w iv (X.flatten ++ (ck.take tail.length ++ C.enc (xorB (tail ++ zeros (C.bs - tail.length)) ck)))
+      = (Spec.cbcDec C iv X).1.flatten ++ (xorB (C.dec ck) (Spec.cbcDec C iv X).2 ++ tail) := by
+  have hbs := hC.bs_pos
+  have hx : (xorB (tail ++ zeros (C.bs - tail.length)) ck).length = C.bs := by simp [hck, zeros]; omega
+  have hcn : (C.enc (xorB (tail ++ zeros (C.bs - tail.length)) ck)).length = C.bs := hC.enc_len _ hx
+  generalize hY : ck.take tail.length ++ C.enc (xorB (tail ++ zeros (C.bs - tail.length)) ck) = Y
+  have hYl : Y.length = C.bs + tail.length := by rw [← hY]; simp [hcn, hck]; omega
+  obtain ⟨hch, htl⟩ := layout_chunks C.bs hbs X hX Y (by omega) (by omega)
+  obtain ⟨_, hdr⟩ := layout_take_drop C.bs X hX Y
+  have hfl := flatten_length_of_allLen C.bs X hX
+  unfold cbcCs1Dec
+  simp only [hch, htl]
+  have htl' : (Y.drop C.bs).length = tail.length := by simp [hYl]
+  have hne : (Y.drop C.bs).length ≠ 0 := by omega
+  simp only [hne, ne_eq, not_false_eq_true, if_true, if_false]
+  have hlen1 : (X ++ [Y.take C.bs]).length - 1 = X.length := by simp
+  rw [hlen1, List.take_left' rfl, cbcDec_eq]
+  have hmid : (X.flatten ++ Y).length - (C.bs + (Y.drop C.bs).length) = X.length * C.bs := by
+    rw [List.length_append, hfl, htl', hYl]; omega
+  rw [hmid, hdr, ← hY, cs1_tail C hC _ ck tail hck ht0 ht]
+
+/-- CS2 decrypt on `X ‖ C_n ‖ C*_k`. -/
+theorem cs2_dec_shape (C : Cipher) (hC : C.Valid) (w : Nat) (iv : Bytes) (X : List Bytes) (hX : ∀ b ∈ X, b.length = C.bs)
+    (ck tail : Bytes) (hck : ck.length = C.bs) (ht0 : 0 < tail.length) (ht : tail.length < C.bs) :
+    cbcCs2Dec C w iv (X.flatten ++ (C.enc (xorB (tail ++ zeros (C.bs - tail.length)) ck) ++ ck.take tail.length))
+      = (Spec.cbcDec C iv X).1.flatten ++ (xorB (C.dec ck) (Spec.cbcDec C iv X).2 ++ tail) := by
+  have hbs := hC.bs_pos
+  have hx : (xorB (tail ++ zeros (C.bs - tail.length)) ck).length = C.bs := by simp [hck, zeros]; omega
+  have hcn : (C.enc (xorB (tail ++ zeros (C.bs - tail.length)) ck)).length = C.bs := hC.enc_len _ hx
+  generalize hY : C.enc (xorB (tail ++ zeros (C.bs - tail.length)) ck) ++ ck.take tail.length = Y
+  have hYl : Y.length = C.bs + tail.length := by rw [← hY]; simp [hcn, hck]; omega
+  obtain ⟨hch, htl⟩ := layout_chunks C.bs hbs X hX Y (by omega) (by omega)
+  obtain ⟨_, hdr⟩ := layout_take_drop C.bs X hX Y
+  have hfl := flatten_length_of_allLen C.bs X hX
+  unfold cbcCs2Dec
+  simp only [hch, htl]
+  have htl' : (Y.drop C.bs).length = tail.length := by simp [hYl]
+  have hne : (Y.drop C.bs).length ≠ 0 := by omega
+  simp only [hne, ne_eq, not_false_eq_true, if_true, if_false]
+  have hlen1 : (X ++ [Y.take C.bs]).length - 1 = X.length := by simp
+  rw [hlen1, List.take_left' rfl, cbcDec_eq]
+  have hmid : (X.flatten ++ Y).length - (C.bs + (Y.drop C.bs).length) = X.length * C.bs := by
+    rw [List.length_append, hfl, htl', hYl]; omega
+  rw [hmid, hdr, ← hY, cs2_tail C hC _ ck tail hck ht]
+
+/-- CS3 decrypt on `X ‖ Y` where `Y` is the last `bs + d` bytes (`0 < d ≤ bs`): processes `X` by CBC and `Y` by
+    the un-stealing step. -/
+theorem cs3_dec_shape (C : Cipher) (hC : C.Valid) (w : Nat) (iv : Bytes) (X : List Bytes) (hX : ∀ b ∈ X, b.length = C.bs)
+    (Y : Bytes) (hY1 : C.bs < Y.length) (hY2 : Y.length ≤ 2 * C.bs) :
+    cbcCs3Dec false C w iv (X.flatten ++ Y)
+      = (Spec.cbcDec C iv X).1.flatten ++ cbcCs2DecTail C (Spec.cbcDec C iv X).2 Y := by
+  have hbs := hC.bs_pos
+  have hfl := flatten_length_of_allLen C.bs X hX
+  obtain ⟨htk, hdr⟩ := layout_take_drop C.bs X hX Y
+  unfold cbcCs3Dec
+  have hlen : (X.flatten ++ Y).length = X.length * C.bs + Y.length := by rw [List.length_append, hfl]
+  have hne : ¬ (X.flatten ++ Y).length = C.bs := by rw [hlen]; omega
+  simp only [hne, Bool.not_false, true_and, if_false]
+  have hbl : ((X.flatten ++ Y).length + C.bs - 1) / C.bs - 2 = X.length := by
+    rw [hlen]
+    -- Y.length = bs + d with 1 ≤ d ≤ bs
+    obtain ⟨d, hd⟩ : ∃ d, Y.length = C.bs + d := ⟨Y.length - C.bs, by omega⟩
+    have hd1 : 1 ≤ d := by omega
+    have hd2 : d ≤ C.bs := by omega
+    have e : X.length * C.bs + Y.length + C.bs - 1 = (d - 1) + (X.length + 2) * C.bs := by
+      rw [hd, Nat.add_mul]; omega
+    rw [e, Nat.add_mul_div_right _ _ hbs, Nat.div_eq_of_lt (by omega)]; simp
+  rw [hbl, Nat.mul_comm C.bs X.length, htk, hdr, cbcDec_eq]
+  have hcx := (chunks_of_blocks C.bs hbs X [] hX (by simpa using hbs)).1
+  rw [List.append_nil] at hcx
+  rw [hcx]
+
+end Thm.C05aux
+
+namespace Thm.C05aux
+open Impl Impl.Cts Glue Spec
+
+/-- CBC normal form, whole number `k ≥ 2` of blocks. -/
+theorem cbcSpec_aligned (v : CsVariant) (C : Cipher) (hC : C.Valid) (iv m : Bytes) (hiv : iv.length = C.bs)
+    (ht : (chunksTail C.bs m).length = 0) (hk2 : 2 ≤ (chunks C.bs m).length) :
+    Spec.cbcCsEnc v C iv m =
+      arrange v C.bs C.bs (((Spec.cbcEnc C iv (chunks C.bs m)).1.take ((chunks C.bs m).length - 2)).flatten)
+        ((Spec.cbcEnc C iv (chunks C.bs m)).1.getD ((chunks C.bs m).length - 2) [])
+        ((Spec.cbcEnc C iv (chunks C.bs m)).1.getD ((chunks C.bs m).length - 1) []) := by
+  have hbs := hC.bs_pos
+  have hlen := msg_len C.bs hbs m
+  obtain ⟨hall, _⟩ := cbcEnc_blocks_len C hC iv hiv m
+  have hcsl : (Spec.cbcEnc C iv (chunks C.bs m)).1.length = (chunks C.bs m).length := cbcEnc_length C _ iv
+  have hml : m.length = (chunks C.bs m).length * C.bs := by rw [hlen, ht]; simp
+  obtain ⟨hn, hd⟩ := cts_aligned C.bs (chunks C.bs m).length hbs (by omega)
+  rw [← hml] at hn hd
+  have hpad : m ++ zeros (C.bs - C.bs) = m := by simp [zeros]
+  unfold Spec.cbcCsEnc
+  simp only [hn, hd, hpad]
+  have hk1 : ¬ (chunks C.bs m).length ≤ 1 := by omega
+  simp only [hk1, if_false]
+  have htk : ((Spec.cbcEnc C iv (chunks C.bs m)).1.getD ((chunks C.bs m).length - 2) []).take C.bs
+      = (Spec.cbcEnc C iv (chunks C.bs m)).1.getD ((chunks C.bs m).length - 2) [] :=
+    List.take_of_length_le (by rw [hall _ (getD_mem _ _ _ (by omega))]; exact Nat.le_refl _)
+  rw [htk]
+
+/-- CBC normal form, partial final block. -/
+theorem cbcSpec_partial (v : CsVariant) (C : Cipher) (hC : C.Valid) (iv m : Bytes)
+    (htp : 0 < (chunksTail C.bs m).length) (hk : 1 ≤ (chunks C.bs m).length) :
+    Spec.cbcCsEnc v C iv m =
+      arrange v C.bs (chunksTail C.bs m).length (Spec.cbcEnc C iv (chunks C.bs m)).1.dropLast.flatten
+        (((Spec.cbcEnc C iv (chunks C.bs m)).1.getLastD []).take (chunksTail C.bs m).length)
+        (C.enc (xorB (chunksTail C.bs m ++ zeros (C.bs - (chunksTail C.bs m).length)) (Spec.cbcEnc C iv (chunks C.bs m)).2)) := by
+  have hbs := hC.bs_pos
+  have hlen := msg_len C.bs hbs m
+  have htl := chunksTail_lt C.bs hbs m
+  have hcsl : (Spec.cbcEnc C iv (chunks C.bs m)).1.length = (chunks C.bs m).length := cbcEnc_length C _ iv
+  obtain ⟨hn, hd⟩ := cts_partial C.bs (chunks C.bs m).length (chunksTail C.bs m).length hbs htp htl
+  rw [← hlen] at hn hd
+  unfold Spec.cbcCsEnc
+  simp only [hn, hd, chunks_padded C.bs hbs m htp, cbcEnc_append]
+  generalize hcs : (Spec.cbcEnc C iv (chunks C.bs m)) = r at *
+  generalize hkk : (chunks C.bs m).length = k at *
+  have hn1 : ¬ (k + 1 ≤ 1) := by omega
+  simp only [hn1, if_false, Spec.cbcEnc, Nat.add_sub_cancel]
+  have e1 : (r.1 ++ [C.enc (xorB (chunksTail C.bs m ++ zeros (C.bs - (chunksTail C.bs m).length)) r.2)]).take (k + 1 - 2) = r.1.dropLast := by
+    have : k + 1 - 2 = r.1.length - 1 := by omega
+    rw [this, List.take_append_of_le_length (by omega), List.dropLast_eq_take]
+  have e2 : (r.1 ++ [C.enc (xorB (chunksTail C.bs m ++ zeros (C.bs - (chunksTail C.bs m).length)) r.2)]).getD (k + 1 - 2) [] = r.1.getLastD [] := by
+    have : k + 1 - 2 = r.1.length - 1 := by omega
+    rw [this, getD_append_left' _ _ _ _ (by omega), getD_last _ _ (by omega)]
+  have e3 : (r.1 ++ [C.enc (xorB (chunksTail C.bs m ++ zeros (C.bs - (chunksTail C.bs m).length)) r.2)]).getD k [] =
+      C.enc (xorB (chunksTail C.bs m ++ zeros (C.bs - (chunksTail C.bs m).length)) r.2) := by
+    rw [getD_append_right' _ _ _ _ (by omega)]
+    have : k - r.1.length = 0 := by omega
+    rw [this]; rfl
+  rw [e1, e2, e3]
+
+/-- the chaining value after a non-empty CBC encryption is the last ciphertext block. -/
+theorem cbcEnc_snd (C : Cipher) : ∀ (l : List Bytes) (iv : Bytes), 0 < l.length →
+    (Spec.cbcEnc C iv l).2 = (Spec.cbcEnc C iv l).1.getLastD [] := by
+  intro l
+  induction l with
+  | nil => intro iv h; simp at h
+  | cons p ps ih =>
+    intro iv _
+    cases ps with
+    | nil => simp [Spec.cbcEnc]
+    | cons q qs =>
+      have := ih (C.enc (xorB p iv)) (by simp)
+      simp only [Spec.cbcEnc] at this ⊢
+      rw [this]
+      simp [List.getLastD]
+
+theorem split_dropLast {α : Type} (l : List α) (d : α) (h : 0 < l.length) : l = l.dropLast ++ [l.getLastD d] := by
+  cases hl : l.reverse with
+  | nil => simp at hl; subst hl; simp at h
+  | cons x xs =>
+    have : l = xs.reverse ++ [x] := by have := congrArg List.reverse hl; simpa using this
+    subst this; simp
+
+/-- **CBC-CS1/2/3: decryption inverts encryption**, every block size, width, length ≥ one block. -/
+theorem cbc_cs_dec_inverts (v : CsVariant) (C : Cipher) (hC : C.Valid) (w : Nat) (iv m : Bytes)
+    (hiv : iv.length = C.bs) (hm : C.bs ≤ m.length) :
+    implCbcDec v C w iv (Spec.cbcCsEnc v C iv m) = m := by
+  have hbs := hC.bs_pos
+  have hlen := msg_len C.bs hbs m
+  have htl := chunksTail_lt C.bs hbs m
+  have hcl := chunks_length C.bs hbs m
+  have hallB := chunks_allLen C.bs hbs m
+  obtain ⟨hall, hr2⟩ := cbcEnc_blocks_len C hC iv hiv m
+  have hk : 1 ≤ (chunks C.bs m).length := by
+    rw [hcl]; exact (Nat.one_le_div_iff hbs).mpr hm
+  have hcsl : (Spec.cbcEnc C iv (chunks C.bs m)).1.length = (chunks C.bs m).length := cbcEnc_length C _ iv
+  obtain ⟨hinv, _⟩ := cbcDec_cbcEnc C hC (chunks C.bs m) iv hiv hallB
+  have hmsplit := chunks_flatten_tail C.bs hbs m
+  by_cases ht : (chunksTail C.bs m).length = 0
+  · have htnil : chunksTail C.bs m = [] := List.eq_nil_of_length_eq_zero ht
+    have hmflat : (chunks C.bs m).flatten = m := by rw [htnil, List.append_nil] at hmsplit; exact hmsplit
+    by_cases hk1 : (chunks C.bs m).length ≤ 1
+    · -- one block
+      have hml : m.length = (chunks C.bs m).length * C.bs := by rw [hlen, ht]; simp
+      obtain ⟨hn, hd⟩ := cts_aligned C.bs (chunks C.bs m).length hbs hk
+      rw [← hml] at hn hd
+      have hspec : Spec.cbcCsEnc v C iv m = (Spec.cbcEnc C iv (chunks C.bs m)).1.flatten := by
+        unfold Spec.cbcCsEnc
+        have hpad : m ++ zeros (C.bs - C.bs) = m := by simp [zeros]
+        simp only [hn, hd, hpad, hk1, if_true]
+      rw [hspec]
+      have hch := chunks_of_blocks C.bs hbs _ [] hall (by simpa using hbs)
+      rw [List.append_nil] at hch
+      have hfl : (Spec.cbcEnc C iv (chunks C.bs m)).1.flatten.length = C.bs := by
+        rw [flatten_length_of_allLen C.bs _ hall, hcsl]; have : (chunks C.bs m).length = 1 := by omega
+        rw [this]; simp
+      cases v
+      · simp only [implCbcDec, cbcCs1Dec, hch.1, hch.2, List.length_nil, ne_eq, not_true_eq_false, if_false, if_true, cbcDec_eq, hinv, hmflat]
+      · simp only [implCbcDec, cbcCs2Dec, hch.1, hch.2, List.length_nil, ne_eq, not_true_eq_false, if_false, if_true, cbcDec_eq, hinv, hmflat]
+      · simp only [implCbcDec, cbcCs3Dec, hfl, Bool.not_false, true_and, if_true, hch.1, cbcDec_eq, hinv, hmflat]
+    · have hk2 : 2 ≤ (chunks C.bs m).length := by omega
+      rw [cbcSpec_aligned v C hC iv m hiv ht hk2]
+      generalize hcs : (Spec.cbcEnc C iv (chunks C.bs m)).1 = cs at *
+      generalize hkk : (chunks C.bs m).length = k at *
+      have hsp := split_last2 cs [] (by omega)
+      rw [hcsl] at hsp
+      have hflat : cs.flatten = (cs.take (k - 2)).flatten ++ cs.getD (k - 2) [] ++ cs.getD (k - 1) [] := by
+        conv => lhs; rw [hsp]
+        simp
+      have hch := chunks_of_blocks C.bs hbs cs [] hall (by simpa using hbs)
+      rw [List.append_nil] at hch
+      have hcs12 : ∀ f : Cipher → Nat → Bytes → Bytes → Bytes,
+          (f = cbcCs1Dec ∨ f = cbcCs2Dec) → f C w iv cs.flatten = m := by
+        intro f hf
+        rcases hf with rfl | rfl
+        · simp only [cbcCs1Dec, hch.1, hch.2, List.length_nil, ne_eq, not_true_eq_false, if_false, if_true, cbcDec_eq, hinv, hmflat]
+        · simp only [cbcCs2Dec, hch.1, hch.2, List.length_nil, ne_eq, not_true_eq_false, if_false, if_true, cbcDec_eq, hinv, hmflat]
+      cases v
+      · simp only [implCbcDec, arrange, ← hflat]; exact hcs12 _ (Or.inl rfl)
+      · simp only [implCbcDec, arrange, if_true, ← hflat]; exact hcs12 _ (Or.inr rfl)
+      · -- CS3: the last two blocks come exchanged
+        simp only [implCbcDec, arrange]
+        have hX : ∀ b ∈ cs.take (k - 2), b.length = C.bs := fun b hb => hall b (List.mem_of_mem_take hb)
+        have hl1 : (cs.getD (k - 1) []).length = C.bs := hall _ (getD_mem _ _ _ (by omega))
+        have hl2 : (cs.getD (k - 2) []).length = C.bs := hall _ (getD_mem _ _ _ (by omega))
+        rw [List.append_assoc, cs3_dec_shape C hC w iv _ hX _ (by rw [List.length_append, hl1, hl2]; omega)
+          (by rw [List.length_append, hl1, hl2]; omega), cs3_swap_tail C hC _ _ _ hl1 hl2]
+        -- the three pieces are the CBC decryption of `cs`
+        have hsp' : cs = cs.take (k - 2) ++ [cs.getD (k - 2) [], cs.getD (k - 1) []] := by
+          conv => lhs; rw [hsp]
+          simp
+        have hdec : (Spec.cbcDec C iv cs).1 = chunks C.bs m := hinv
+        rw [hsp', cbcDec_append] at hdec
+        simp only [Spec.cbcDec] at hdec
+        rw [← hmflat, ← hdec]
+        simp
+  · have htp : 0 < (chunksTail C.bs m).length := by omega
+    rw [cbcSpec_partial v C hC iv m htp hk]
+    rw [cbcEnc_snd C _ iv (by omega)]
+    generalize hcs : (Spec.cbcEnc C iv (chunks C.bs m)).1 = cs at *
+    have hX : ∀ b ∈ cs.dropLast, b.length = C.bs := fun b hb => hall b (List.dropLast_subset cs hb)
+    have hckl : (cs.getLastD []).length = C.bs := by
+      rw [← getD_last cs [] (by omega)]; exact hall _ (getD_mem _ _ _ (by omega))
+    have hne : ¬ (chunksTail C.bs m).length = C.bs := by omega
+    -- the CBC decryption of `cs = cs.dropLast ++ [C_k]`
+    have hdec : (Spec.cbcDec C iv cs).1 = chunks C.bs m := hinv
+    rw [split_dropLast cs [] (by omega), cbcDec_append] at hdec
+    simp only [Spec.cbcDec] at hdec
+    have hfinal : (Spec.cbcDec C iv cs.dropLast).1.flatten ++
+        (xorB (C.dec (cs.getLastD [])) (Spec.cbcDec C iv cs.dropLast).2 ++ chunksTail C.bs m) = m := by
+      rw [← List.append_assoc]
+      have : (Spec.cbcDec C iv cs.dropLast).1.flatten ++ xorB (C.dec (cs.getLastD [])) (Spec.cbcDec C iv cs.dropLast).2
+          = (chunks C.bs m).flatten := by rw [← hdec]; simp
+      rw [this, hmsplit]
+    have hlen3 : C.bs < (C.enc (xorB (chunksTail C.bs m ++ zeros (C.bs - (chunksTail C.bs m).length)) (cs.getLastD [])) ++
+        (cs.getLastD []).take (chunksTail C.bs m).length).length ∧
+        (C.enc (xorB (chunksTail C.bs m ++ zeros (C.bs - (chunksTail C.bs m).length)) (cs.getLastD [])) ++
+        (cs.getLastD []).take (chunksTail C.bs m).length).length ≤ 2 * C.bs := by
+      have hx : (xorB (chunksTail C.bs m ++ zeros (C.bs - (chunksTail C.bs m).length)) (cs.getLastD [])).length = C.bs := by
+        rw [xorB_length, List.length_append, zeros_length, hckl]; omega
+      rw [List.length_append, hC.enc_len _ hx, List.length_take, hckl]
+      constructor <;> omega
+    cases v
+    · simp only [implCbcDec, arrange, List.append_assoc]
+      rw [cs1_dec_shape C hC w iv _ hX _ _ hckl htp htl]; exact hfinal
+    · simp only [implCbcDec, arrange, hne, if_false, List.append_assoc]
+      rw [cs2_dec_shape C hC w iv _ hX _ _ hckl htp htl]; exact hfinal
+    · simp only [implCbcDec, arrange, List.append_assoc]
+      rw [cs3_dec_shape C hC w iv _ hX _ hlen3.1 hlen3.2, cs2_tail C hC _ _ _ hckl htl]; exact hfinal
+
+end Thm.C05aux
